@@ -281,7 +281,7 @@ def run(desc, ctx):
             w = [rnd.choice((1, 2)) for _ in range(min(j, 10))] + ([0] * 3 if j <= 10 else [])
             if j == 11:
                 w = [1] * 10
-            sl = variant != 5
+            sl = variant < 4           # variants 4 and 5: peer without safelink (4 answers the request with garbage)
             r = one(ctx, w, 2, 2, [12, 14], [12, 13], 5, safelink=sl, nsub=1, sseed=variant, policy='random', label='negotiation',
                     garbage=(variant == 4))
             ctx.count('mon.negotiation_loss_cases')
